@@ -171,11 +171,23 @@ def run_c32(ctx):
 
 # ======================================================================== C34
 KNOWN_STALE = "StaleLeftEpoch"
-SCENARIO_S = {  # two successive departures, no duplicate, no reordering
+KNOWN_LATE = "LateStartReassign"
+SCENARIO_S = {  # StaleLeftEpoch: two successive departures, no duplicate, no reordering
     "chg": [{"kind": "left", "node": "p1"}, {"kind": "left", "node": "p2"}],
     "h": [{"op": "left", "n": "p1", "e": 1, "r": ""}, {"op": "start", "n": "p1", "e": 1, "r": "left"},
           {"op": "complete", "n": "", "e": 1, "r": ""}, {"op": "left", "n": "p2", "e": 2, "r": ""},
           {"op": "start", "n": "p2", "e": 2, "r": "left"}, {"op": "complete", "n": "", "e": 2, "r": ""}]}
+SCENARIO_REWIND = {  # LateStartReassign: first-time starts out of order, start(2) then start(1) rewinds the latest epoch
+    "chg": [{"kind": "left", "node": "p1"}, {"kind": "left", "node": "p2"}],
+    "h": [{"op": "left", "n": "p1", "e": 1, "r": ""}, {"op": "left", "n": "p2", "e": 2, "r": ""},
+          {"op": "start", "n": "p2", "e": 2, "r": "left"}, {"op": "start", "n": "p1", "e": 1, "r": "left"},
+          {"op": "complete", "n": "", "e": 1, "r": ""}, {"op": "complete", "n": "", "e": 2, "r": ""}]}
+SCENARIO_DUPSTART = {  # a redelivered start of a completed epoch must stay a no-op (base code: nothing is emitted early)
+    "chg": [{"kind": "left", "node": "p1"}, {"kind": "left", "node": "p2"}],
+    "h": [{"op": "left", "n": "p1", "e": 1, "r": ""}, {"op": "start", "n": "p1", "e": 1, "r": "left"},
+          {"op": "complete", "n": "", "e": 1, "r": ""}, {"op": "start", "n": "p2", "e": 2, "r": "left"},
+          {"op": "left", "n": "p2", "e": 2, "r": ""}, {"op": "start", "n": "p1", "e": 1, "r": "left"},
+          {"op": "complete", "n": "", "e": 1, "r": ""}, {"op": "complete", "n": "", "e": 2, "r": ""}]}
 
 
 def _tla_records(text):
@@ -214,14 +226,16 @@ def run_c34(ctx):
     #  run by hand, too large for the routine thorough tier)
     mc_bg = _Bg(lambda: ctx.tlc_must_hold(SPEC, "MC_Membership.cfg" if quick else "MC_Membership_t.cfg", module="MC_Membership",
                                           timeout=900 if quick else 3000, workers=2 if quick else 4))
-    #    the known finding's witness as a TLC counterexample (Defects = {StaleLeftEpoch, StickyLeftFilter})
-    stale = ctx.tlc(SPEC, "MC_Membership_stale.cfg", module="MC_Membership", timeout=600, workers=2, expect_fail=True)
-    if stale.violated != "NoBad":
-        raise vlib.Infra("MC_Membership_stale: expected the model of the code as found to violate NoBad, got %s %s"
-                         % (stale.violated, (stale.error or "")[:500]))
-    witness = counterexample_behaviour(stale.counterexample())
-    if witness is None:
-        raise vlib.Infra("could not parse the TLC counterexample of MC_Membership_stale")
+    #    the witnesses of the two known findings as TLC counterexamples (one Defects branch each; workers=1: deterministic)
+    witnesses = {}
+    for fid, cfg in ((KNOWN_STALE, "MC_Membership_stale.cfg"), (KNOWN_LATE, "MC_Membership_late.cfg")):
+        r = ctx.tlc(SPEC, cfg, module="MC_Membership", timeout=600, workers=1, expect_fail=True)
+        if r.violated != "NoBad":
+            raise vlib.Infra("%s: expected the model with this Defects branch to violate NoBad, got %s %s"
+                             % (cfg, r.violated, (r.error or "")[:500]))
+        witnesses[fid] = counterexample_behaviour(r.counterexample())
+        if witnesses[fid] is None:
+            raise vlib.Infra("could not parse the TLC counterexample of " + cfg)
     if not quick:
         ctx.tlc_must_hold(SPEC, "MC_Membership_real.cfg", module="MC_Membership", timeout=3000, workers=4)
         ctx.tlc_must_hold(SPEC, "MC_Membership_sticky.cfg", module="MC_Membership", timeout=3000, workers=4)
@@ -234,14 +248,18 @@ def run_c34(ctx):
                     deadlock_check=False, simulate="num=%d" % (500 if quick else 6000), workers=1, timeout=900 if quick else 3000,
                     name="Sim_Membership")
     sim = vlib.parse_sim_behaviours(sim_r.out)
-    if len(exh) < 5000 or len(sim) < 500:
-        raise vlib.Infra("behaviour generation produced too little (%d exhaustive, %d random)" % (len(exh), len(sim)))
-    sim = sim[: (4000 if quick else 40000)]
-    special = [witness, SCENARIO_S]
-    behaviours = special + exh + sim
+    #    edge cover: every (reachable tracker state, handler call) pair of the 2-peer / 2-epoch model, i.e. every
+    #    duplicate or redelivered notification / start / complete in every state (also of completed epochs)
+    cov_r = ctx.tlc(SPEC, "Cover_Membership.cfg", module="Gen_Membership", deadlock_check=False, timeout=900, workers=2)
+    cover = vlib.parse_sim_behaviours(cov_r.out)
+    if len(exh) < 1000 or len(sim) < 500 or len(cover) < 5000:
+        raise vlib.Infra("behaviour generation produced too little (%d exhaustive, %d random, %d edge cover)" % (len(exh), len(sim), len(cover)))
+    sim = sim[: (2000 if quick else 40000)]
+    special = [witnesses[KNOWN_STALE], witnesses[KNOWN_LATE], SCENARIO_S, SCENARIO_REWIND, SCENARIO_DUPSTART]
+    behaviours = special + cover + exh + sim
     bfile = ctx.tmp("behaviours.ndjson")
     vlib.write_ndjson(bfile, behaviours)
-    ctx.log("behaviours: 2 witnesses + %d exhaustive + %d random" % (len(exh), len(sim)))
+    ctx.log("behaviours: %d witnesses/scenarios + %d edge cover + %d exhaustive + %d random" % (len(special), len(cover), len(exh), len(sim)))
 
     # 3. the real tracker
     exe = ctx.build("relocmember")
@@ -261,6 +279,7 @@ def run_c34(ctx):
         cur.append(i)
     parts.append(cur)
     mism, drift, off = [], None, 0
+    diverged = {"A": [], "B": []}      # 1-based trace lines where the free-running model first differs, per Defects set
     for k, idx in enumerate(parts):
         pfile = trace
         if len(parts) > 1:
@@ -270,8 +289,18 @@ def run_c34(ctx):
         conf_bg = _Bg(lambda pf=pfile, kk=k: ctx.tlc(SPEC, "Trace_Membership.cfg", dfs=True, files={"trace.ndjson": pf},
                                                      timeout=1800 if quick else 3000, heap="12g", expect_fail=True,
                                                      name="Trace_Membership-%d" % kk))
+        attr_bg = _Bg(lambda pf=pfile, kk=k: ctx.tlc(SPEC, "Trace_MembershipAttrA.cfg", module="Trace_MembershipAttr", dfs=True,
+                                                     files={"trace.ndjson": pf}, timeout=1800 if quick else 3000, heap="12g",
+                                                     name="Trace_MembershipAttrA-%d" % kk))
         mon = ctx.tlc(SPEC, "Trace_MembershipMon.cfg", dfs=True, files={"trace.ndjson": pfile}, timeout=1800 if quick else 3000,
                       heap="12g", name="Trace_MembershipMon-%d" % k)
+        attrs = {"B": ctx.tlc(SPEC, "Trace_MembershipAttrB.cfg", module="Trace_MembershipAttr", dfs=True, files={"trace.ndjson": pfile},
+                              timeout=1800 if quick else 3000, heap="12g", name="Trace_MembershipAttrB-%d" % k)}
+        attrs["A"] = attr_bg.get()
+        for key, ar in attrs.items():
+            if ar.depth != n + 1:
+                raise vlib.Infra("attribution spec %s did not consume the whole trace part %d (%d of %d)" % (key, k, ar.depth - 1, n))
+            diverged[key] += [int(t[0]) + off for t in _tuples(ar.out, "DIVERGED", "Trace_MembershipAttr" + key)]
         if mon.depth != n + 1:
             raise vlib.Infra("monitor did not consume the whole trace part %d (%d of %d)" % (k, mon.depth - 1, n))
         mism += [(int(t[0]) + off, str(t[1]), str(t[2])) for t in _tuples(mon.out, "MISMATCH", "Trace_MembershipMon")]
@@ -288,21 +317,52 @@ def run_c34(ctx):
     ctx.log("design: MC_Membership %d distinct states, once/self/settled hold for Defects={}" % mc.distinct)
 
     codes = collections.Counter(m[1] for m in mism)
-    # known finding: identified by its witness class - NodeLeft(n) emitted on the completion of a node-left epoch that
-    # began before n's departure (verdict code EARLY_STALE, the model's Defects branch StaleLeftEpoch)
-    stale_hits = [m for m in mism if m[1] == "EARLY_STALE"]
+    # Attribution of EARLY_STALE verdicts (NodeLeft on the completion of a node-left epoch that began before the departure).
+    # A verdict belongs to a known finding only if the model with that finding's Defects branch predicts exactly this
+    # emission: the free-running transcription has not diverged from the real emissions up to and including this line.
+    #   model A = {StaleLeftEpoch} (+ StickyLeftFilter)         -> StaleLeftEpoch
+    #   model B = {StaleLeftEpoch, LateStartReassign} (+ ...)   -> LateStartReassign (needs the start-side branch)
+    # Everything else - in particular an early emission the code as found would not make - is a violation.
+    new_lines = [i + 1 for i, r in enumerate(rows) if r["op"] == "New"]      # 1-based
+
+    def beh_start(line):
+        import bisect
+        return new_lines[bisect.bisect_right(new_lines, line) - 1]
+
+    first_div = {"A": {}, "B": {}}
+    for key in ("A", "B"):
+        for dl in diverged[key]:
+            first_div[key].setdefault(beh_start(dl), dl)
+    attributed = {KNOWN_STALE: [], KNOWN_LATE: []}
     hard = [m for m in mism if m[1] != "EARLY_STALE"]
-    known = ctx.is_known(KNOWN_STALE)
-    if stale_hits and known:
-        ctx.report_known(KNOWN_STALE, "NodeLeft emitted on the completion of a rebalance epoch that began before the departure "
-                                      "(%d emissions in %d behaviours, first at trace line %d, node %s)"
-                         % (len(stale_hits), len(behaviours), stale_hits[0][0], stale_hits[0][2]))
-    elif stale_hits:
-        hard = hard + stale_hits
-    # the witness from the TLC counterexample must reproduce on the real code while the finding is listed as known
-    first_new = [i for i, r in enumerate(rows) if r["op"] == "New"]
-    wit_end = first_new[1] if len(first_new) > 1 else len(rows)
-    wit_reproduced = any(m[0] <= wit_end and m[1] == "EARLY_STALE" for m in mism)
+    for m in mism:
+        if m[1] != "EARLY_STALE":
+            continue
+        bs = beh_start(m[0])
+        if first_div["A"].get(bs, 1 << 60) > m[0]:
+            fid = KNOWN_STALE
+        elif first_div["B"].get(bs, 1 << 60) > m[0]:
+            fid = KNOWN_LATE
+        else:
+            fid = None
+        if fid and ctx.is_known(fid):
+            attributed[fid].append(m)
+        else:
+            hard.append(m)
+    hard.sort()
+    for fid, text in ((KNOWN_STALE, "NodeLeft emitted on the completion of an epoch that the departure adopted in trackNodeLeftEvent "
+                                    "although it began before the departure"),
+                      (KNOWN_LATE, "NodeLeft emitted on the completion of an older epoch that processRebalanceStart assigned to the "
+                                   "pending departure (starts taken in arrival order, every pending departure re-assigned)")):
+        if attributed[fid]:
+            ctx.report_known(fid, "%s (%d emissions in %d behaviours, first at trace line %d, node %s; each predicted by the model "
+                                  "of this finding)" % (text, len(attributed[fid]), len(behaviours), attributed[fid][0][0], attributed[fid][0][2]))
+    # the witnesses from the TLC counterexamples must reproduce on the real code while the findings are listed as known
+    wit_reproduced = {}
+    for j, fid in enumerate((KNOWN_STALE, KNOWN_LATE)):
+        lo = new_lines[j]
+        hi = new_lines[j + 1] if j + 1 < len(new_lines) else len(rows) + 1
+        wit_reproduced[fid] = any(lo < m[0] < hi for m in attributed[fid])
     emitted = sum(len(r.get("em", [])) for r in rows)
     nontrivial = len({json.dumps(b, sort_keys=True) for b in behaviours
                       if len({s["op"] for s in b["h"]}) >= 3})
@@ -318,13 +378,16 @@ def run_c34(ctx):
     cov = {
         "states": ctx.states()[0], "transitions": ctx.states()[1],
         "traces_validated_against_impl": len(behaviours),
-        "samples": [witness, SCENARIO_S, exh[len(exh) // 2], sim[0]],
+        "samples": [witnesses[KNOWN_STALE], witnesses[KNOWN_LATE], SCENARIO_DUPSTART, cover[len(cover) // 2], exh[len(exh) // 2], sim[0]],
         "evaluations": len(behaviours), "distinct_nontrivial": nontrivial,
         "rule": "every history of length D of handler calls (join/left notifications, rebalance start/complete, overdue timer) over "
-                "every ground-truth change sequence (TLC BFS of Gen_Membership), TLC random walks of depth 12/16 over 2-3 peers and "
-                "3-4 epochs with duplicates and reorderings, the TLC counterexample of MC_Membership_stale and the two-departures "
-                "scenario; non-trivial = at least three different kinds of call",
-        "exhaustive": True, "exhaustive_histories": len(exh), "random_walks": len(sim),
+                "every ground-truth change sequence (TLC BFS of Gen_Membership), an edge cover of the 2-peer/2-epoch model (every reachable "
+                "tracker state x every handler call incl. redelivered starts/completes of finished epochs), TLC random walks of depth 12/16 over 2-3 peers and "
+                "3-4 epochs with duplicates and reorderings, the TLC counterexamples of MC_Membership_stale / _late and three fixed "
+                "scenarios; non-trivial = at least three different kinds of call",
+        "exhaustive": True, "exhaustive_histories": len(exh), "random_walks": len(sim), "edge_cover_histories": len(cover),
+        "early_stale_attribution": {k: len(v) for k, v in attributed.items()},
+        "unexplained_steps": {"model_A": len(diverged["A"]), "model_B_code_as_found": len(diverged["B"])},
         "events_validated": nlines, "emitted_events": emitted, "behaviours_with_events": with_events,
         "monitor_verdicts": dict(codes), "conformance_drift": drift,
         "known_witness_reproduced_on_real_code": wit_reproduced,
@@ -346,11 +409,13 @@ def run_c34(ctx):
         what = {"SELF": "an event names the local node", "DUPJOIN": "a second NodeJoined without an intervening departure",
                 "DUPLEFT": "a second NodeLeft without an intervening arrival", "SPURIOUS": "NodeLeft without any departure notification",
                 "EARLY": "NodeLeft emitted although no node-left rebalance epoch has completed and no timeout fired",
-                "EARLY_STALE": "NodeLeft emitted on the completion of an epoch that began before the departure"}.get(hard[0][1], hard[0][1])
+                "EARLY_STALE": "NodeLeft emitted on the completion of an epoch that began before the departure, at a step where "
+                               "the model of the code as found (known findings included) emits nothing of the kind"}.get(hard[0][1], hard[0][1])
         raise vlib.Violation(pid, rp, "monitor: %s (%s, node %s, trace line %d; %d verdicts: %s)"
                              % (what, hard[0][1], hard[0][2], line, len(hard), dict(collections.Counter(m[1] for m in hard))))
-    if known and not wit_reproduced:
-        ctx.log("note: the witness of known finding %s no longer reproduces on this tree (finding may be repaired)" % KNOWN_STALE)
+    for fid, ok in wit_reproduced.items():
+        if ctx.is_known(fid) and not ok:
+            ctx.log("note: the witness of known finding %s no longer reproduces on this tree (finding may be repaired)" % fid)
     if drift:
         ctx.log("conformance drift (not a verdict): " + drift)
     ctx.evidence("model_checking", cov, assumptions)
